@@ -4,6 +4,7 @@ package main
 
 import (
 	"fmt"
+	"reflect"
 
 	"github.com/cosmos/cosmos-proto/internal/verifh/vschema"
 	"github.com/cosmos/cosmos-proto/internal/verifh/vval"
@@ -173,6 +174,16 @@ func (c *libCtx) libCase(v, other *vval.Val, replay string) {
 			b.Count("lib_variant_unequal")
 		}
 	}
+	// ---- a clone shares no memory with the original: every byte of every []byte reachable from a second clone
+	// is overwritten in place through the Go struct (the reflection API only ever replaces slices, which cannot
+	// show shared backing arrays)
+	{
+		cl2 := proto.Clone(a)
+		scribble(reflect.ValueOf(cl2), 0)
+		if got := c.canon(a); got != before {
+			viol("clone-shares-memory", fmt.Sprintf("overwriting the bytes of a clone in place changed the original: %s -> %s", clip(before, 300), clip(got, 300)))
+		}
+	}
 	// ---- Merge(dst, src)
 	if srcA, srcD, ok := c.pair(other); ok {
 		dstA, dstD, _ := c.pair(v)
@@ -190,6 +201,15 @@ func (c *libCtx) libCase(v, other *vval.Val, replay string) {
 		ops := c.mutateBoth(srcA, nil, 2)
 		if got := c.canon(dstA); got != dstBefore {
 			viol("merge-independent", fmt.Sprintf("mutating the merge source (%v) changed the destination", ops))
+		}
+		// ... also not through shared backing arrays of byte slices
+		srcB, _, _ := c.pair(other)
+		dstB, _, _ := c.pair(v)
+		proto.Merge(dstB, srcB)
+		dstBefore = c.canon(dstB)
+		scribble(reflect.ValueOf(srcB), 0)
+		if got := c.canon(dstB); got != dstBefore {
+			viol("merge-shares-memory", "overwriting the bytes of the merge source in place changed the destination: "+clip(dstBefore, 300)+" -> "+clip(got, 300))
 		}
 	}
 	// ---- reflective field copy dst.Set(fd, src.Get(fd)) of every populated list/map field, then the
